@@ -46,20 +46,27 @@ def llm_fn_for(path, version):
     return fn
 
 
+RAILS = {"single": (("in1",), ("out1",)), "double": (("in1", "in2"), ("out1", "out2"))}
+_RAILSET = ["single"]
+
+
 def build(version, dialog, exceptions):
+    ins, outs = RAILS[_RAILSET[0]]
     if version == "2.x":
-        return rw.v2_world(in_order=("in1",), out_order=("out1",), dialog=False, exceptions=exceptions, main=V2_MAIN_LOOKUP)
-    return rw.v1_world(in_order=("in1",), out_order=("out1",), dialog=dialog, exceptions=exceptions)
+        return rw.v2_world(in_order=ins, out_order=outs, dialog=False, exceptions=exceptions, main=V2_MAIN_LOOKUP)
+    return rw.v1_world(in_order=ins, out_order=outs, dialog=dialog, exceptions=exceptions)
 
 
 def explore(task):
-    version, dialog, exceptions, path, turns, pairs, kinds = task
+    version, dialog, exceptions, path, turns, pairs, kinds = task[:7]
+    _RAILSET[0] = task[7] if len(task) > 7 else "single"
+    ins, outs = RAILS[_RAILSET[0]]
     v2 = version == "2.x"
     res = {"worlds": 1, "conversations": 0, "faults_injected": 0, "faulted_turns_fail_closed": 0,
            "next_turns_checked": 0, "next_turn_spurious_refusals": 0, "action_sites": 0, "viol": []}
     info0 = {"engine": "E3-world", "prop": "C03", "version": version, "dialog": dialog, "exceptions": exceptions, "path": path}
     world = build(version, dialog, exceptions)
-    verd = {"in1": "A", "out1": "A"}
+    verd = {r: "A" for r in ins + outs}
     fn = llm_fn_for(path, version)
     nonce = [0]
 
@@ -107,7 +114,7 @@ def explore(task):
         return res
     for t in ref:
         s = sites(t)
-        want = ["in1"] + (["verif_lookup"] if (path == "lookup" or v2) else []) + ["out1"]
+        want = list(ins) + (["verif_lookup"] if (path == "lookup" or v2) else []) + list(outs)
         if s != want:
             res["viol"].append(("harness:unexpected-fault-free-sites", f"sites {s}, expected {want}", info0))
             return res
@@ -155,13 +162,13 @@ def explore(task):
                     continue
                 llm_texts = [str(c.get("answer", "")).strip().strip('"') for c in ft.llm_calls if "LLMTEXT-" in str(c.get("answer", ""))]
                 text = ft.text or ""
-                guarded_failed = "in1" in failed_sites or "out1" in failed_sites
+                guarded_failed = any(r in failed_sites for r in ins + outs)
                 leaked = [x for x in llm_texts if x and x in text]
                 if guarded_failed:
                     if leaked:
                         bad("unchecked-llm-text-returned", f"rail action failed ({failed_sites}) but the reply contains the LLM text {leaked[0]!r}: {text!r}")
                     else:
-                        ok_replies = {INTERNAL_ERROR, "REFUSED-in1", "REFUSED-out1", "EXC:BLOCKED-in1", "EXC:BLOCKED-out1"}
+                        ok_replies = {INTERNAL_ERROR} | {f"REFUSED-{r}" for r in ins + outs} | {f"EXC:BLOCKED-{r}" for r in ins + outs}
                         evs = [e.get("type") for e in reply_events(ft.reply)] if v2 else []
                         if text in ok_replies or (v2 and exceptions and any(e.endswith("RailException") for e in evs)):
                             res["faulted_turns_fail_closed"] += 1
@@ -174,12 +181,12 @@ def explore(task):
                     nt = conv[fault_turn]
                     res["next_turns_checked"] += 1
                     calls = [(a.get("rail"), a["text"]) for a in nt.actions if a.get("rail")]
-                    if not calls or calls[0] != ("in1", nt.user_text):
+                    if not calls or calls[0] != (ins[0], nt.user_text):
                         bad("next-turn-input-rail-not-run", f"after the failure the next user message {nt.user_text!r} was not checked by the input rail first; rail calls {calls}, reply {nt.text!r}")
                         continue
                     nt_llm = [str(c.get("answer", "")).strip().strip('"') for c in nt.llm_calls if "LLMTEXT-" in str(c.get("answer", ""))]
                     if nt_llm:
-                        if ("out1", nt_llm[-1]) not in calls:
+                        if (outs[0], nt_llm[-1]) not in calls:
                             bad("next-turn-output-rail-not-run", f"next turn generated {nt_llm[-1]!r} but the output rail was not invoked on it; rail calls {calls}, reply {nt.text!r}")
                     elif (nt.text or "").startswith("REFUSED") or (nt.text or "") == INTERNAL_ERROR:
                         res["next_turn_spurious_refusals"] += 1
@@ -296,6 +303,10 @@ def tasks(tier):
         out.append(("1.0", True, exc, "llm", turns, pairs, kinds))
         out.append(("1.0", True, exc, "lookup", turns, pairs, kinds))
         out.append(("2.x", False, exc, "free", turns, pairs, kinds))
+        if tier == "thorough":
+            out.append(("1.0", False, exc, "general", turns, pairs, kinds, "double"))
+            out.append(("1.0", True, exc, "lookup", turns, pairs, kinds, "double"))
+            out.append(("2.x", False, exc, "free", turns, pairs, kinds, "double"))
     out.append(("audit", False, 3 if tier == "quick" else 4, kinds))
     return out
 
